@@ -345,11 +345,7 @@ class Spline final {
    */
   Spline<T, order> &operator*=(const T &d) {
     DURING_TEST_CHECK_VALIDITY();
-    for (auto &cs : _coefficients) {
-      for (auto &c : cs) {
-        c *= d;
-      }
-    }
+    (*this) = (*this) * d;
     return *this;
   };
 
